@@ -920,6 +920,110 @@ def _fillup(blkn, stmts, items, b, lp, iff, vec, end, types):
     return True
 
 
+def slice_pattern_matches(fn):
+    """D44  a `match` on a slice / vector S (a side-effect free place, possibly through `.as_slice()`, `&`, `[..]`) whose arms are slice patterns
+            `[]`, `[.., p]`, `[p, ..]`, `[first, rest @ ..]`, `[a, b]`, `_`  ->  the if-chain on `S.len()` with the bindings as element accesses
+            (`[.., p]` binds `S.last().unwrap()`, `[first, ..]` binds `&S[0]`, `rest @ ..` binds `&S[1..]`); first-match order kept, the last arm of an
+            exhaustive match needs no test."""
+    n = 0
+
+    def rw(x):
+        nonlocal n
+        if isinstance(x, list):
+            return [rw(v) for v in x]
+        if not isinstance(x, dict):
+            return x
+        for k_, v in list(x.items()):
+            if isinstance(v, (dict, list)):
+                x[k_] = rw(v)
+        if x.get("k") != "match" or x.get("mac") or any(a.get("guard") is not None for a in x["arms"]):
+            return x
+        pats = []
+        for a in x["arms"]:
+            q = a["pat"]
+            while q.get("k") in ("ref", "deref"):
+                q = q["p"]
+            pats.append(q)
+        if not any(q.get("k") == "slice" for q in pats) or not all(q.get("k") in ("slice", "wild") for q in pats):
+            return x
+        S = _unblk(x["scrut"])
+        while S is not None and ((S.get("k") == "mcall" and S.get("name") in ("as_slice", "as_mut_slice", "iter") and not S["args"]) or S.get("k") == "ref"
+                                 or (S.get("k") == "un" and S.get("op") == "Deref")):
+            S = _unblk(S["recv"] if S.get("k") == "mcall" else S["x"])
+        if S is None or not _pure_access(S):
+            return x
+        line = x.get("line")
+        mk = lambda: copy.deepcopy(S)
+        LEN = lambda: {"k": "mcall", "name": "len", "callee": "std::vec::Vec::<T, A>::len", "recv": mk(), "args": [], "line": line}
+        lit = lambda v: {"k": "lit", "v": str(v), "line": line}
+        branches = []
+        for a, q in zip(x["arms"], pats):
+            if q.get("k") == "wild":
+                branches.append((None, [], a["body"]))
+                continue
+            nb, na, mid = len(q["before"]), len(q["after"]), q.get("mid")
+            lets = []
+            okp = True
+            for i_, e in enumerate(q["before"]):
+                if e.get("k") == "wild":
+                    continue
+                if e.get("k") != "bind":
+                    okp = False
+                    break
+                lets.append({"k": "let", "pat": e, "init": {"k": "ref", "mut": False, "x": {"k": "index", "b": mk(), "i": lit(i_), "line": line}, "line": line}, "els": None, "line": line})
+            for j_, e in enumerate(q["after"]):
+                if e.get("k") == "wild":
+                    continue
+                if e.get("k") != "bind":
+                    okp = False
+                    break
+                if j_ == na - 1:
+                    last = {"k": "mcall", "name": "last", "callee": "core::slice::<impl [T]>::last", "recv": mk(), "args": [], "line": line}
+                    init = {"k": "mcall", "name": "unwrap", "callee": "std::option::Option::<T>::unwrap", "recv": last, "args": [], "line": line}
+                else:
+                    idx = {"k": "bin", "op": "Sub", "l": LEN(), "r": lit(na - j_), "line": line}
+                    init = {"k": "ref", "mut": False, "x": {"k": "index", "b": mk(), "i": idx, "line": line}, "line": line}
+                lets.append({"k": "let", "pat": e, "init": init, "els": None, "line": line})
+            if mid is not None and mid.get("k") == "bind":
+                sub = mid.get("sub")
+                rng = {"k": "struct", "path": "std::ops::RangeFrom" if na == 0 else "std::ops::Range", "fs": [["start", lit(nb)]] + ([] if na == 0 else [["end", {"k": "bin", "op": "Sub", "l": LEN(), "r": lit(na), "line": line}]]), "line": line}
+                b2 = {k2: v2 for k2, v2 in mid.items() if k2 != "sub"}
+                lets.append({"k": "let", "pat": b2, "init": {"k": "ref", "mut": False, "x": {"k": "index", "b": mk(), "i": rng, "line": line}, "line": line}, "els": None, "line": line})
+            elif mid is not None and mid.get("k") != "wild":
+                okp = False
+            if not okp:
+                return x
+            if mid is None:
+                if nb + na == 0:
+                    cond = {"k": "mcall", "name": "is_empty", "callee": "std::vec::Vec::<T, A>::is_empty", "recv": mk(), "args": [], "line": line}
+                else:
+                    cond = {"k": "bin", "op": "Eq", "l": LEN(), "r": lit(nb + na), "line": line}
+            else:
+                cond = None if nb + na == 0 else {"k": "bin", "op": "Ge", "l": LEN(), "r": lit(nb + na), "line": line}
+            branches.append((cond, lets, a["body"]))
+
+        def body_of(lets, b):
+            if not lets:
+                return b if b.get("k") == "blk" else {"k": "blk", "b": {"k": "block", "stmts": [], "tail": b}, "line": line}
+            if b.get("k") == "blk" and b.get("lbl") is None:
+                return {"k": "blk", "b": {"k": "block", "stmts": lets + list(b["b"]["stmts"]), "tail": b["b"].get("tail")}, "line": line}
+            return {"k": "blk", "b": {"k": "block", "stmts": lets, "tail": b}, "line": line}
+        out = None
+        for i_, (cond, lets, b) in enumerate(reversed(branches)):
+            if out is None or cond is None:
+                out = body_of(lets, b)        # the last arm of an exhaustive match (or an irrefutable arm) needs no test
+                continue
+            out = {"k": "if", "c": cond, "th": body_of(lets, b), "el": out, "line": line, "from_slice_match": True}
+        for key in ("t", "ta"):
+            if key in x and isinstance(out, dict):
+                out[key] = x[key]
+        n += 1
+        return out
+    if fn.get("body") is not None:
+        fn["body"] = rw(fn["body"])
+    return n
+
+
 def deref_of_ref(fn):
     """D43  `*&X` / `*&mut X`  ->  `X`   (what a by-reference parameter substituted by its argument leaves behind)"""
     n = 0
@@ -3846,6 +3950,7 @@ def run(facts):
         counts["match_guards"] = counts.get("match_guards", 0) + match_guards(fn)
         counts["bool_matches"] = counts.get("bool_matches", 0) + bool_match_to_if(fn)
         counts["loop_break_values"] = counts.get("loop_break_values", 0) + loop_break_value(fn)
+        counts["slice_matches"] = counts.get("slice_matches", 0) + slice_pattern_matches(fn)
         counts["deref_of_ref"] = counts.get("deref_of_ref", 0) + deref_of_ref(fn)
         counts["loop_exit_tests"] = counts.get("loop_exit_tests", 0) + loop_exit_tests(fn)
         counts["while_loops"] = counts.get("while_loops", 0) + while_to_for(fn, facts["types"])
